@@ -175,6 +175,9 @@ class SimpleClient:
                     timeout=timeout):  # pragma: no cover
                 raise TimeoutError()
             if not self.connected:
+                if self.input_buffer:
+                    # hand out what arrived before the connection ended
+                    break
                 raise DisconnectedError()
             if not self.input_event.wait(timeout=timeout):
                 raise TimeoutError()
